@@ -176,3 +176,384 @@ class Tagged:
     def eq(self, a, b, excluded=()):
         """Python == across the tags (numbers compare by value, bool is the number 0/1, NaN equal to NaN)."""
         return z3.If(z3.Or(PVal.is_S(a), PVal.is_S(b)), a == b, pval_num(a) == pval_num(b))
+
+
+# =========================================================================================== ordered dict of symbolic size
+class ODict:
+    """insertion-ordered dict with a symbolic number of entries.  Well-formedness (`wf()`) is the data-structure
+    invariant of CPython's dict: it is *assumed* for symbolic inputs and *re-established as a checked loop-invariant
+    clause* (`odict_wf` in the loop contracts) wherever a dict is havoced."""
+
+    def __init__(self, kc, vc, n=None, karr=None, dom=None, pos=None, val=None):
+        self.kc, self.vc = kc, vc
+        ks, vs = kc.sort, vc.sort
+        self.n = n if n is not None else z3.IntVal(0)
+        self.karr = karr if karr is not None else z3.K(z3.IntSort(), pm._default_term(ks))
+        self.dom = dom if dom is not None else z3.K(ks, z3.BoolVal(False))
+        self.pos = pos if pos is not None else z3.K(ks, z3.IntVal(-1))
+        self.val = val if val is not None else z3.K(ks, _default_of(vs))
+
+    @classmethod
+    def fresh(cls, run, name, kc, vc, wf=True):
+        ks, vs = kc.sort, vc.sort
+        d = cls(kc, vc, run.fresh(name + '_n', z3.IntSort()), run.fresh(name + '_keys', z3.ArraySort(z3.IntSort(), ks)),
+                run.fresh(name + '_dom', z3.ArraySort(ks, z3.BoolSort())), run.fresh(name + '_pos', z3.ArraySort(ks, z3.IntSort())),
+                run.fresh(name + '_val', z3.ArraySort(ks, vs)))
+        run.assume(d.n >= 0)
+        if wf:
+            for ax in d.wf():
+                run.axiom(ax)
+        return d
+
+    def wf(self):
+        i = z3.Int('i!od')
+        s = z3.Const('s!od', self.kc.sort)
+        return [
+            z3.ForAll([i], z3.Implies(z3.And(i >= 0, i < self.n), z3.And(self.dom[self.karr[i]], self.pos[self.karr[i]] == i))),
+            z3.ForAll([s], z3.Implies(self.dom[s], z3.And(self.pos[s] >= 0, self.pos[s] < self.n, self.karr[self.pos[s]] == s))),
+        ]
+
+    def copy(self):
+        return ODict(self.kc, self.vc, self.n, self.karr, self.dom, self.pos, self.val)
+
+    def key(self, k):
+        return self.kc.term(k)
+
+    def set(self, k, v):
+        """d[k] = v (no fork: the position bookkeeping is conditional on membership)."""
+        kt, vt = self.key(k), self.vc.term(v)
+        present = self.dom[kt]
+        n0 = self.n
+        self.karr = z3.If(present, self.karr, z3.Store(self.karr, n0, kt))
+        self.pos = z3.If(present, self.pos, z3.Store(self.pos, kt, n0))
+        self.n = z3.If(present, n0, n0 + 1)
+        self.dom = z3.Store(self.dom, kt, z3.BoolVal(True))
+        self.val = z3.Store(self.val, kt, vt)
+
+    def get(self, it, k):
+        kt = self.key(k)
+        if not it.truth(self.dom[kt]):
+            raise PyRaise(it.make_exc('KeyError', [k]))
+        return self.vc.wrap(self.val[kt])
+
+    def value_at(self, i):
+        return self.val[self.karr[i]]
+
+    # python-level protocol used by Interp.e_Call for `f(**d)`: one marker entry carrying the whole dict
+    def items(self):
+        return [('**', self)]
+
+    def __repr__(self):
+        return '<odict %s -> %s>' % (self.kc.sort, self.vc.sort)
+
+
+def _default_of(sort):
+    try:
+        return pm._default_term(sort)
+    except Exception:
+        return z3.Const('default_' + str(sort), sort)
+
+
+class PairList(SymList):
+    """d.items() / d.keys() / d.values() of an ODict as an array-list (a snapshot of the dict at call time)."""
+
+    def __init__(self, od, what):
+        self.od = od.copy()
+        self.what = what
+        i = z3.Int('i!pl')
+        if what == 'keys':
+            arr = self.od.karr
+        elif what == 'values':
+            arr = z3.Lambda([i], self.od.val[self.od.karr[i]])
+        else:
+            arr = None
+        SymList.__init__(self, self.od.n, arr, 'pair')
+
+    def elem_sort(self):
+        if self.what == 'keys':
+            return self.od.kc.sort
+        if self.what == 'values':
+            return self.od.vc.sort
+        raise Unsupported('items() view has no single element sort')
+
+    def get(self, i):
+        od = self.od
+        k = od.kc.wrap(od.karr[i])
+        if self.what == 'keys':
+            return k
+        v = od.vc.wrap(od.val[od.karr[i]])
+        if self.what == 'values':
+            return v
+        return (k, v)
+
+
+# declared element codecs of dict-typed locals that are still a concrete (empty) dict when a symbolic loop havocs them
+DECLS = {}
+
+
+def declare(module, qualname, varname, kc, vc):
+    DECLS[(module, qualname, varname)] = (kc, vc)
+
+
+def declared(it, name):
+    for fv in reversed(it.stack):
+        d = DECLS.get((fv.mod.dotted, fv.qualname, name))
+        if d is not None:
+            return d
+    return None
+
+
+def as_odict(it, v, name=None, codecs=None):
+    """ODict view of a dict-valued local (a concrete empty dict is the empty ODict of the declared sorts)."""
+    if isinstance(v, ODict):
+        return v
+    if isinstance(v, M.PyDict):
+        d = codecs or declared(it, name)
+        if d is None:
+            raise Unsupported('dict %s reaches a symbolic loop without declared element sorts' % name)
+        od = ODict(d[0], d[1])
+        for k, x in v.items():
+            od.set(k, x)
+        return od
+    raise Unsupported('%r is not a dict' % (v,))
+
+
+# ------------------------------------------------------------------------------------------ hooks
+def _chain(name, fn, missing=M.MISSING):
+    prev = getattr(M, name)
+
+    def hook(*a):
+        r = fn(*a)
+        if r is not missing:
+            return r
+        return prev(*a)
+    setattr(M, name, hook)
+
+
+def _setitem(it, base, idx, v):
+    if isinstance(base, ODict):
+        base.set(idx, v)
+        return True
+    return M.MISSING
+
+
+def _subscript(it, base, idx):
+    if isinstance(base, ODict):
+        return base.get(it, idx)
+    return M.MISSING
+
+
+def _contains(it, container, x):
+    if isinstance(container, ODict):
+        return container.dom[container.key(x)]
+    if isinstance(container, PairList) and container.what == 'keys':
+        return container.od.dom[container.od.key(x)]
+    return M.MISSING
+
+
+def _od_getattr(it, v, a):
+    if isinstance(v, ODict):
+        if a in ('items', 'keys', 'values'):
+            return Builtin(a, lambda it_, args, kw: PairList(v, a))
+        if a == '__setitem__':
+            return Builtin('__setitem__', lambda it_, args, kw: v.set(args[0], args[1]))
+        if a == '__getitem__':
+            return Builtin('__getitem__', lambda it_, args, kw: v.get(it_, args[0]))
+        if a == '__contains__':
+            return Builtin('__contains__', lambda it_, args, kw: v.dom[v.key(args[0])])
+        if a == 'get':
+            def get(it_, args, kw):
+                kt = v.key(args[0])
+                if it_.truth(v.dom[kt]):
+                    return v.vc.wrap(v.val[kt])
+                return args[1] if len(args) > 1 else kw.get('default')
+            return Builtin('get', get)
+        if a == 'copy':
+            return Builtin('copy', lambda it_, args, kw: v.copy())
+        raise Unsupported('method %s of a dict of symbolic size' % a)
+    return M.MISSING
+
+
+def _fresh_like(it, v, name):
+    if isinstance(v, M.PyDict):
+        d = declared(it, name)
+        if d is None:
+            return M.MISSING
+        return ODict.fresh(it.run, name, d[0], d[1], wf=False)
+    if isinstance(v, ODict):
+        return ODict.fresh(it.run, name, v.kc, v.vc, wf=False)
+    return M.MISSING
+
+
+def _deepcopy(it, v, memo):
+    if isinstance(v, ODict):
+        return v.copy()
+    return M.MISSING
+
+
+def _iterate(it, v):
+    if isinstance(v, ODict):
+        pl = PairList(v, 'keys')
+        r = M.try_iterate(it, pl)
+        return r if r is not None else M.MISSING
+    return M.MISSING
+
+
+def _len(it, v):
+    if isinstance(v, ODict):
+        return v.n
+    return M.MISSING
+
+
+_chain('setitem_hook', _setitem)
+_chain('subscript_hook', _subscript)
+_chain('contains_hook', _contains)
+_chain('value_getattr_hook', _od_getattr)
+_chain('fresh_like_hook', _fresh_like)
+_chain('deepcopy_hook', _deepcopy)
+_chain('iterate_hook', _iterate)
+_chain('len_hook', _len)
+
+_prev_truth = M.truth_hook
+
+
+def _truth(it, v):
+    if isinstance(v, ODict):
+        return v.n > 0
+    return _prev_truth(it, v)
+
+
+M.truth_hook = _truth
+
+
+# =========================================================================================== collections.UserDict
+_USERDICT = {'collections.UserDict'}
+
+
+def is_userdict_class(cls):
+    if not isinstance(cls, ClassInfo):
+        return False
+    for c in E.mro(cls):
+        if isinstance(c, ClassInfo):
+            for b in c.base_nodes:
+                if A._dotted(c.mod, b) in _USERDICT:
+                    return True
+    return False
+
+
+def _ud_setitem(it, o, k, v):
+    c, m = E.find_method(o.cls, '__setitem__')
+    if m is not None:
+        return it.invoke(FuncVal(c.mod, m, c), [o, k, v], {})
+    M.setitem(it, o.attrs['data'], k, v)
+
+
+def _ud_construct(it, cls, args, kw):
+    """UserDict.__init__(dict=None, /, **kwargs): data = {}; self.update(dict); self.update(kwargs) -- update performs
+    self[k] = v per entry.  For a `**d` with d of symbolic size the per-entry effect of the class's own __setitem__ is
+    executed once on an arbitrary entry; if it stores the entry unchanged the result holds exactly the entries of d."""
+    if not is_userdict_class(cls):
+        return M.MISSING
+    o = Obj(cls, {'data': M.PyDict()})
+    srcs = list(args[:1])
+    star = kw.pop('**', None) if isinstance(kw.get('**'), ODict) else None
+    for s in srcs:
+        if s is None:
+            continue
+        if isinstance(s, ODict):
+            if star is not None:
+                raise Unsupported('UserDict(d, **e) with two dicts of symbolic size')
+            star = s
+        else:
+            for k, v in _pairs(it, s):
+                _ud_setitem(it, o, k, v)
+    if star is not None:
+        if len(o.attrs['data']) or kw:
+            raise Unsupported('UserDict(**d) mixed with other entries')
+        run = it.run
+        k = run.fresh('ud_k', star.kc.sort)
+        scratch = Obj(cls, {'data': ODict(star.kc, star.vc)})
+        vt = star.val[k]
+        _ud_setitem(it, scratch, star.kc.wrap(k), star.vc.wrap(vt))
+        sd = scratch.attrs['data']
+        run.oblige('UserDict.init.pointwise', z3.And(sd.n == 1, sd.dom[k], sd.val[k] == vt, sd.karr[0] == k))
+        o.attrs['data'] = star.copy()
+        return o
+    for k, v in kw.items():
+        _ud_setitem(it, o, k, v)
+    return o
+
+
+def _pairs(it, s):
+    if isinstance(s, M.PyDict):
+        return list(s.items())
+    if isinstance(s, Obj) and 'data' in s.attrs and isinstance(s.attrs['data'], M.PyDict):
+        return list(s.attrs['data'].items())
+    return [tuple(M.iterate(it, kv)) for kv in M.iterate(it, s)]
+
+
+_chain('construct_hook', _ud_construct)
+
+
+def _ud_getattr(it, o, a):
+    if not (isinstance(o, Obj) and is_userdict_class(o.cls) and 'data' in o.attrs):
+        return M.MISSING
+    d = o.attrs['data']
+    if a in ('items', 'keys', 'values', 'get', 'copy'):
+        return it.getattr(d, a)
+    if a == '__contains__':
+        return Builtin('__contains__', lambda it_, args, kw: M.contains(it_, d, args[0]))
+    if a == '__getitem__':
+        return Builtin('__getitem__', lambda it_, args, kw: M.subscript(it_, d, args[0]))
+    if a == '__len__':
+        return Builtin('__len__', lambda it_, args, kw: M.b_len(it_, [d], {}))
+    return M.MISSING
+
+
+_chain('obj_getattr', _ud_getattr)
+
+
+def _ud_contains(it, container, x):
+    if isinstance(container, Obj) and is_userdict_class(container.cls) and 'data' in container.attrs:
+        c, m = E.find_method(container.cls, '__contains__')
+        if m is None:
+            return M.contains(it, container.attrs['data'], x)
+    return M.MISSING
+
+
+def _ud_subscript(it, base, idx):
+    if isinstance(base, Obj) and is_userdict_class(base.cls) and 'data' in base.attrs:
+        c, m = E.find_method(base.cls, '__getitem__')
+        if m is None:
+            return M.subscript(it, base.attrs['data'], idx)
+    return M.MISSING
+
+
+def _ud_len(it, v):
+    if isinstance(v, Obj) and is_userdict_class(v.cls) and 'data' in v.attrs:
+        return M.b_len(it, [v.attrs['data']], {})
+    return M.MISSING
+
+
+def _ud_iterate(it, v):
+    if isinstance(v, Obj) and is_userdict_class(v.cls) and 'data' in v.attrs:
+        r = M.try_iterate(it, v.attrs['data'])
+        return r if r is not None else M.MISSING
+    return M.MISSING
+
+
+_chain('contains_hook', _ud_contains)
+_chain('subscript_hook', _ud_subscript)
+_chain('len_hook', _ud_len)
+_chain('iterate_hook', _ud_iterate)
+
+_prev_truth2 = M.truth_hook
+
+
+def _truth2(it, v):
+    if isinstance(v, Obj) and is_userdict_class(v.cls) and 'data' in v.attrs:
+        return it.truth_term(v.attrs['data']) if not isinstance(v.attrs['data'], ODict) else v.attrs['data'].n > 0
+    return _prev_truth2(it, v)
+
+
+M.truth_hook = _truth2
